@@ -15,7 +15,17 @@
 #include <string>
 #include <cstring>
 
+#include <thread>
+#include <chrono>
+#include <unistd.h>
+
 using vj::value;
+bool load_sqf(VM& vm, const value& st, value& out);
+sqf::runtime::runtime::action action_of(const std::string& a);
+extern bool g_exit_after_case;
+extern std::atomic<bool> g_park_enabled;
+extern std::atomic<int> g_parked;
+extern std::atomic<int> g_park_release;
 
 // ------------------------------------------------------------------ C API
 struct ApiInst
@@ -160,6 +170,123 @@ value step_extra(const std::string& op, const value& st, std::map<int, std::uniq
         else if (op == "api_reset")
         {
             api_reset();
+        }
+        else if (op == "concurrent")
+        {
+            // One thread executes (default: start) while this thread plays the controller: a planned list of actions,
+            // each issued once the executor has run at least `at` instructions (or has returned).
+            auto itv = vms.find((int)st["vm"].i64(0));
+            if (itv == vms.end()) { out.set("harness_error", "no such vm"); return out; }
+            VM& vm = *itv->second;
+            auto& rt = *vm.rt;
+            auto& scripts = st["scripts"];
+            for (size_t i = 0; i < scripts.size(); i++)
+            {
+                auto ls = value::obj();
+                ls.set("src", scripts.at(i).str()).set("nopp", true);
+                value lo = value::obj();
+                if (!load_sqf(vm, ls, lo)) { out.set("harness_error", "script does not load"); return out; }
+            }
+            vm.mon->concurrent = st["yield"].boolean(true);
+            vm.mon->fp_rng.store(0x9E3779B97F4A7C15ULL ^ (unsigned long long)st["fp_seed"].i64(1));
+            g_parked = 0; g_park_release = 0;
+            g_park_enabled = st["park"].boolean(false);
+            std::atomic<bool> done{ false };
+            std::atomic<int> exec_res{ -99 };
+            std::atomic<long long> exec_end_instr{ -1 };
+            auto exec_action = action_of(st["exec"].str("start"));
+            long long instr0 = vm.mon->instr.load();
+            std::thread ex([&]() {
+                try { exec_res = (int)rt.execute(exec_action); }
+                catch (...) { exec_res = -98; }
+                exec_end_instr = vm.mon->instr.load();
+                done = true;
+            });
+            auto recs = value::arr();
+            bool accepted = false;
+            auto& plan = st["plan"];
+            auto real_now = []() { return std::chrono::steady_clock::now(); };
+            for (size_t i = 0; i < plan.size(); i++)
+            {
+                auto& pa = plan.at(i);
+                long long at = pa["at"].i64(0);
+                auto t_wait = real_now();
+                auto rec = value::obj();
+                rec.set("a", pa["a"].str());
+                if (pa["a"].str() == "wait_parked")
+                {
+                    int want = g_park_release.load() + 1;
+                    while (!done.load() && g_parked.load() < want && real_now() - t_wait < std::chrono::seconds(5)) sched_yield();
+                    rec.set("parked", g_parked.load() >= want);
+                    rec.set("done_before", done.load());
+                    recs.push(rec);
+                    continue;
+                }
+                if (pa["a"].str() == "release")
+                {
+                    g_park_release = g_parked.load();
+                    rec.set("done_before", done.load());
+                    rec.set("instr_before", vm.mon->instr.load() - instr0);
+                    recs.push(rec);
+                    continue;
+                }
+                while (!done.load() && vm.mon->instr.load() - instr0 < at && real_now() - t_wait < std::chrono::seconds(5)) sched_yield();
+                rec.set("done_before", done.load());
+                rec.set("instr_before", vm.mon->instr.load() - instr0);
+                auto r = rt.execute(action_of(pa["a"].str()));
+                rec.set("r", (int)r);
+                if ((pa["a"].str() == "stop" || pa["a"].str() == "abort") && r == sqf::runtime::runtime::result::ok && !rec["done_before"].boolean(true)) accepted = true;
+                rec.set("instr_after", vm.mon->instr.load() - instr0);
+                rec.set("done_after", done.load());
+                recs.push(rec);
+            }
+            // wind down: the executor must come back once asked to
+            g_park_enabled = false;
+            bool stuck = false;
+            {
+                // first without help: an accepted stop/abort has to be enough
+                auto t_free = real_now();
+                long long grace_ms = accepted ? st["grace_ms"].i64(1500) : 0;
+                out.set("accepted_stop", accepted);
+                while (!done.load() && real_now() - t_free < std::chrono::milliseconds(grace_ms)) usleep(500);
+                out.set("done_without_help", done.load());
+                out.set("instr_at_grace_end", vm.mon->instr.load() - instr0);
+            }
+            {
+                auto t_end = real_now();
+                int asks = 0;
+                while (!done.load())
+                {
+                    if (st["final_abort"].boolean(true)) { rt.execute(sqf::runtime::runtime::action::abort); asks++; }
+                    for (int k = 0; k < 200 && !done.load(); k++) usleep(1000);
+                    if (real_now() - t_end > std::chrono::seconds((long long)st["stuck_s"].i64(20))) { stuck = true; break; }
+                }
+                out.set("final_aborts", asks);
+            }
+            if (stuck)
+            {
+                ex.detach();
+                g_exit_after_case = true;   // a thread is lost inside the VM: this process cannot be reused
+            }
+            else
+            {
+                ex.join();
+            }
+            vm.mon->concurrent = false;
+            out.set("stuck", stuck);
+            out.set("exec_r", exec_res.load());
+            out.set("exec_instr", exec_end_instr.load() - instr0);
+            out.set("plan", recs);
+            out.set("max_in_exec", vm.mon->max_in_exec.load());
+            out.set("max_owners", vm.mon->max_owners.load());
+            out.set("after_flag_max", vm.mon->after_flag_max.load());
+            out.set("failpoints", vm.mon->failpoints.load());
+            if (!stuck)
+            {
+                out.set("state", (int)rt.runtime_state());
+                out.set("nctx", (long long)(rt.context_end() - rt.context_begin()));
+                out.set("logs", vm.logger.drain());
+            }
         }
         else if (op == "pbo")
         {
